@@ -412,6 +412,29 @@ let exec (s : t) (verbose : bool) (f : string array) (obs : string option) : str
        List.iter (fun (k, v) -> Buffer.add_string b (obs_bytes k ^ "=" ^ obs_bytes v ^ ";")) l;
        Printf.sprintf "ok %d %s" (List.length l) (md5hex (Buffer.contents b))
      | Inr e -> "err " ^ eerr_name e) ^ events_str evs
+  | "foldw" ->
+    (* Fold works on the snapshot taken when it begins: the callback's writes happen, for the model, after it *)
+    let ((d, r), evs) = db_fold (get_db s) in
+    s.db <- Some d;
+    let head = (match r with
+     | Inl l ->
+       let b = Buffer.create 64 in
+       List.iter (fun (k, v) -> Buffer.add_string b (obs_bytes k ^ "=" ^ obs_bytes v ^ ";")) l;
+       Printf.sprintf "ok %d %s" (List.length l) (md5hex (Buffer.contents b))
+     | Inr e -> "err " ^ eerr_name e) in
+    let evs = ref evs in
+    let wres = ref [] in
+    for i = 3 to Array.length f - 1 do
+      let p = Array.of_list (String.split_on_char ',' f.(i)) in
+      let (d, e) =
+        if p.(0) = "p" then
+          let ((d, e), ev) = db_put (get_db s) (tok_bytes p.(1)) (tok_bytes p.(2)) in evs := !evs @ ev; (d, e)
+        else
+          let ((d, e), ev) = db_delete (get_db s) (tok_bytes p.(1)) in evs := !evs @ ev; (d, e) in
+      s.db <- Some d;
+      wres := (match e with None -> "ok" | Some e -> "err:" ^ eerr_name e) :: !wres
+    done;
+    (match r with Inl _ -> head ^ " w=" ^ String.concat "," (List.rev !wres) | Inr _ -> head) ^ events_str !evs
   | "stat" ->
     let (((k, fn), r), t) = db_stat (get_db s) in
     Printf.sprintf "%s %s %s %s" (string_of_n k) (string_of_n fn) (string_of_n r) (string_of_n t)
@@ -438,7 +461,7 @@ let exec (s : t) (verbose : bool) (f : string array) (obs : string option) : str
     let (((d, b), e), evs) = batch_commit (get_db s) (get_batch s) in
     s.db <- Some d; s.batch <- Some b;
     (match e with None -> "ok" | Some e -> "err " ^ eerr_name e) ^ events_str evs
-  | "merge" | "mergebusy" ->
+  | "merge" | "mergebusy" | "mergeget" ->
     (* the iteration order over the map of older files is observed from the implementation *)
     let o = match obs with Some o -> obs_head o | None -> "ok order" in
     let order_s = match split_first o "order" with (_, r) -> String.trim r in
